@@ -8,7 +8,7 @@ from suites import run_suite
 LEAN_MODULES = ['GoSnaps.Props.C11', 'GoSnaps.Props.Tie.Path', 'GoSnaps.Props.Tie.Wrappers', 'GoSnaps.Props.Tie.Caller', 'GoSnaps.Props.C11Standalone']
 
 DIRS = ['-', 'snaps', 'a/b/__snapshots__', '../shared', './x/../y', '/abs/dir', '/abs/./d/../e/', 'cov%d/100%']
-FILES = ['-', 'custom', 'my_test', 'api.v1', 'with.two.dots', 'rate_100%s']
+FILES = ['-', 'custom', 'my_test', 'api.v1', 'with.two.dots', 'rate_100%s', 'api/users']
 EXTS = ['-', '.txt', '.json', '.%v']
 NAMES = ['TestA', 'TestA/sub_case', 'TestA/x/y', 'TestB#01', 'TestR/ratio/1.25', 'TestV1.2'] + PUNCT_NAMES + [n.decode() if isinstance(n, bytes) else n for n in PCT_NAMES] + [
     'TestTrail/', 'TestDbl//slash', 'TestDot/.', 'TestDot/..', 'TestDot/.hidden', 'Test_/_', 'TestLong/' + 'n' * 120]
